@@ -6,16 +6,19 @@
 namespace vs { namespace gen {
 
 static const char * kNames[] = {"a", "b", "ab", "c"};
-inline std::string Name(Rng & r) {return kNames[r.below(4)];}
+// wide mode (1 run in 8): 16 more names, so that nodes get up to 20 children, sessions many subscriptions and tables grow through their re-hash sizes (7, 14, 28 ...)
+static int g_wideNames = 0;
+inline std::string Name(Rng & r) {if ((g_wideNames)&&(r.pct(60))) return "n" + I(r.below(16)); return kNames[r.below(4)];}
 inline std::string RelPath(Rng & r, int maxDepth = 3) {std::string p = Name(r); const int d = (int) r.below((uint32_t) maxDepth); for (int i=0; i<d; i++) p += "/" + Name(r); return p;}
 // clause mode of the run being generated: 0 = the full mix; 1 = literal names and comma lists of literal names only (a session whose subscriptions use no wildcard
 // at some level is served by the traversal's direct-lookup path, which walks all of its entries with shared scratch state)
 static int g_clauseMode = 0;
-struct ClauseModeScope {ClauseModeScope(uint64_t seed) {Rng r(seed, "clausemode"); g_clauseMode = r.oneIn(6) ? 1 : 0;} ~ClauseModeScope() {g_clauseMode = 0;}};
-inline std::string ListClause(Rng & r) {static const char * l[] = {"a,b", "b,c", "ab,c", "a,ab", "c,a,b", "b,ab"}; return l[r.below(6)];}
+struct ClauseModeScope {ClauseModeScope(uint64_t seed) {Rng r(seed, "clausemode"); g_clauseMode = r.oneIn(6) ? 1 : 0; Rng w(seed, "widenames"); g_wideNames = w.oneIn(8) ? 1 : 0;} ~ClauseModeScope() {g_clauseMode = 0; g_wideNames = 0;}};
+inline std::string ListClause(Rng & r) {static const char * l[] = {"a,b", "b,c", "ab,c", "a,ab", "c,a,b", "b,ab", "c,a*", "b,?b", "ab,a?"}; return l[r.below(r.oneIn(4) ? 9 : 6)];}   // (the last three: a wildcard in a non-first alternative -- such a clause is NOT a list of literal names)
 inline std::string Clause(Rng & r)
 {
    if (g_clauseMode == 1) return r.oneIn(2) ? ListClause(r) : Name(r);
+   if ((g_wideNames)&&(r.pct(35))) {switch(r.below(5)) {case 0: return "n*"; case 1: return "n1?"; case 2: return "n[0-5]"; case 3: return "(n1|n2|c)"; default: return "n" + I(r.below(16));}}
    switch(r.below(8)) {case 0: return "*"; case 1: return "a*"; case 2: return "?"; case 3: return "(a|c)"; case 4: return r.oneIn(2) ? std::string("a,b") : ListClause(r); case 5: return "[a-b]"; case 6: return "*b"; default: return Name(r);}
 }
 // a conservative-subset pattern; relative (implicit */*/ prefix) or absolute
@@ -27,6 +30,7 @@ inline std::string Pattern(Rng & r, int hosts)
    if (k == 1) return "/*/*";                                 // session nodes
    if (k <= 3) return "/h" + I(r.below((uint32_t) hosts)) + "/*/" + p;   // one host only
    if (k == 4) return "/*/*/" + p;                            // explicit spelling of the implicit prefix
+   if ((k == 5)&&(r.oneIn(2))) {static const char * rg[] = {"<0-3>", "<2->", "<-1>", "<1,3-5>", "<0>", "<0-1,4->"}; return std::string("/*/") + rg[r.below(6)] + "/" + p;}   // sessions selected by a numeric range of their ids
    return p;
 }
 inline std::string Filter(Rng & r, int depth = 0)
